@@ -59,6 +59,34 @@ def abstract_command(ctx, bits, twice, response, devicetype=0, p="f"):
     return ctx.new(C.Command, _data=fr, sendtwice=twice, response=response, devicetype=devicetype), fr
 
 
+def mk_report(ctx, data):
+    """a byte string received from a gateway (symbolic bytes / real bytes)"""
+    from pyvc.values import SBytes
+    return bytes(data) if getattr(ctx, "native", False) else SBytes(data)
+
+
+def entries(mapping):
+    """(key, value) pairs of a driver's in-flight table (association list symbolically, dict natively)"""
+    return list(mapping.live_entries()) if hasattr(mapping, "live_entries") else list(mapping.items())
+
+
+def has_key(interp, mapping, key):
+    return mapping.lookup(interp, key)[0] if hasattr(mapping, "lookup") else key in mapping
+
+
+class Attrs:
+    """attribute access on an object under proof, in both modes (SObj field map / real instance)"""
+
+    def __init__(self, interp, obj):
+        self.interp, self.obj = interp, obj
+
+    def __setitem__(self, k, v):
+        self.interp.set_attr(self.obj, k, v)
+
+    def __getitem__(self, k):
+        return self.interp.get_attr(self.obj, k)
+
+
 # driver objects are built by their real constructors, then put into the state a proof unit describes
 from pyvc.values import register_init_built          # noqa: E402
 from dali.driver import hid as _HID, serial as _SER    # noqa: E402
